@@ -41,7 +41,7 @@ for pid, (design, text) in sorted(TREE.items()):
         "property-based testing: proptest-generated programs (byte decoder), trace + reference model oracle, structural shrinking, JSON replay", NOTE))
 
 checks.append(check("C14", "acc14", "6/C14",
-    "accessor oracle: per system run of 1..n accessor calls (React, Reactive, ReactiveMut, ReactRes, ReactResMut, World/ReactCommands triggers, ReactCommands::insert, despawns) a value/liveness model predicts the multiset of reactions seen by type-wide and entity-scoped probe reactors, the stored values and every return value; read-only world-level resource accessors agree and trigger nothing; equality is the type's PartialEq (values carry a tag nibble that equality ignores); registering and revoking unrelated reactors (component, resource, entity-scoped single keys and tuples, and broadcast / any_entity_event reactors keyed by the same types) in between changes nothing; in half of the cases the type-wide probes are App-level reactors added before ReactPlugin; React::get_mut on a zero-sized reactive component",
+    "accessor oracle: per system run of 1..n accessor calls (React, Reactive, ReactiveMut, ReactRes, ReactResMut, World/ReactCommands triggers, ReactCommands::insert, despawns) a value/liveness model predicts the multiset of reactions seen by type-wide and entity-scoped probe reactors, the stored values and every return value; read-only world-level resource accessors agree and trigger nothing; equality is the type's PartialEq (values carry a tag nibble that equality ignores); registering and revoking unrelated reactors (component, resource, entity-scoped single keys and tuples, and broadcast / any_entity_event reactors keyed by the same types) in between changes nothing, also when the token is revoked a second time; in half of the cases the type-wide probes are App-level reactors added before ReactPlugin; React::get_mut on a zero-sized reactive component",
     "property-based testing: proptest-generated call histories, reference model oracle, shrinking, JSON replay",
     "exploration only; probe reactors are the observation device; a mutation trigger whose entity died before its application still runs the type-wide reactors (exactly one trigger per call)"))
 checks.append(check("C17", "sys17", "6/C17",
